@@ -462,6 +462,12 @@ func dependsOnCtl(v ssa.Value, pred func(ssa.Value) bool) bool {
 							return true
 						}
 					}
+				case *ssa.IndexAddr:
+					for _, rr := range *x.Referrers() {
+						if st, ok := rr.(*ssa.Store); ok && st.Addr == ssa.Value(x) && visit(st.Val) {
+							return true
+						}
+					}
 				}
 			}
 		}
@@ -610,5 +616,126 @@ func runSortKeyOverlap(c *Ctx, rule string) {
 	})
 	if seen != 3 {
 		c.Undecided(rule, "analyzeSortKeys", "expected the cases Drop, Put and Rename, found "+sprint(seen))
+	}
+}
+
+// ---- C08-M2: only a single-key sort is split into per-leg sorts and a merge.
+func runLiftedSortSingleKey(c *Ctx, rule string) {
+	p := c.P
+	c.Rule(rule, "a sort is copied into the parallel legs only where it was tested to have exactly one key: the merge that recombines the legs compares a single expression, so ties on the first key of a multi-key sort would come out in leg order")
+	fn := p.Func("(*compiler/optimizer.Optimizer).liftIntoParPaths")
+	if fn == nil {
+		c.Undecided(rule, "liftIntoParPaths", "anchor does not resolve")
+		return
+	}
+	// the Sort case: blocks dominated by the ok-edge of the assertion to *dag.Sort
+	var sortOK *ssa.Extract
+	for _, b := range fn.Blocks {
+		for _, in := range b.Instrs {
+			if ta, ok := in.(*ssa.TypeAssert); ok && ta.CommaOk && short(ta.AssertedType.String()) == "*compiler/ast/dag.Sort" {
+				for _, r := range *ta.Referrers() {
+					if ex, ok := r.(*ssa.Extract); ok && ex.Index == 1 {
+						sortOK = ex
+					}
+				}
+			}
+		}
+	}
+	if sortOK == nil {
+		c.Undecided(rule, "liftIntoParPaths", "the Sort case was not found")
+		return
+	}
+	n := 0
+	for _, ci := range allCalls(fn) {
+		if calleeName(ci.Common()) != "compiler/optimizer.copyOp" {
+			continue
+		}
+		blk := ci.(ssa.Instruction).Block()
+		if !trueEdgeDominatesOrSelf(sortOK, blk) {
+			continue
+		}
+		n++
+		guarded := false
+		for _, gb := range fn.Blocks {
+			iff, ok := gb.Instrs[len(gb.Instrs)-1].(*ssa.If)
+			if !ok || !gb.Dominates(blk) || gb == blk {
+				continue
+			}
+			cmp, ok := iff.Cond.(*ssa.BinOp)
+			if !ok {
+				continue
+			}
+			k, isK := cmp.Y.(*ssa.Const)
+			if !isK || k.Value == nil || k.Int64() != 1 {
+				continue
+			}
+			lenOfArgs := dependsOn(cmp.X, func(v ssa.Value) bool {
+				fa, ok := v.(*ssa.FieldAddr)
+				return ok && namedOf(fa.X.Type()) == "compiler/ast/dag.Sort" && fieldName(fa.X.Type(), fa.Field) == "Args"
+			})
+			if !lenOfArgs {
+				continue
+			}
+			if (cmp.Op == token.NEQ && falseEdgeDominatesOrSelf(cmp, blk)) || (cmp.Op == token.EQL && trueEdgeDominatesOrSelf(cmp, blk)) {
+				guarded = true
+			}
+		}
+		construct := "liftIntoParPaths copies a sort into the legs"
+		if guarded {
+			c.OK(rule, construct, ci.Pos(), "only a sort with exactly one key")
+		} else {
+			c.Fail(rule, construct, ci.Pos(), "a sort with more than one key can be copied into the legs: each leg is sorted on all keys but the legs are merged on the first key only, so records that tie on it come out in whatever order the merge takes them from the legs — `sort a, b` is no longer sorted on b once the scan runs in parallel")
+		}
+	}
+	if n == 0 {
+		c.Undecided(rule, "liftIntoParPaths", "no copy of a sort into the legs found")
+	}
+}
+
+// ---- C07-M1: a merge is only as ordered as what it merges.
+func runMergeOrderNeedsSortedParents(c *Ctx, rule string) {
+	p := c.P
+	c.Rule(rule, "propagateSortKeyOp reports a merge as sorted on its key only where that key was compared with the sort key of the merge's parents: merging unsorted legs yields no order, and a summarize that is told otherwise releases groups early from an unsorted stream (keys come out several times with split aggregates)")
+	fn := p.Func("(*compiler/optimizer.Optimizer).propagateSortKeyOp")
+	if fn == nil {
+		c.Undecided(rule, "propagateSortKeyOp", "anchor does not resolve")
+		return
+	}
+	var mergeOK *ssa.Extract
+	for _, b := range fn.Blocks {
+		for _, in := range b.Instrs {
+			if ta, ok := in.(*ssa.TypeAssert); ok && ta.CommaOk && short(ta.AssertedType.String()) == "*compiler/ast/dag.Merge" {
+				for _, r := range *ta.Referrers() {
+					if ex, ok := r.(*ssa.Extract); ok && ex.Index == 1 {
+						mergeOK = ex
+					}
+				}
+			}
+		}
+	}
+	if mergeOK == nil {
+		c.Undecided(rule, "propagateSortKeyOp", "the Merge case was not found")
+		return
+	}
+	n := 0
+	for _, b := range fn.Blocks {
+		ret, ok := b.Instrs[len(b.Instrs)-1].(*ssa.Return)
+		if !ok || !trueEdgeDominatesOrSelf(mergeOK, b) {
+			continue
+		}
+		n++
+		compared := dependsOnCtl(returnOperand(ret, 0), func(v ssa.Value) bool {
+			call, ok := v.(*ssa.Call)
+			return ok && calleeName(&call.Call) == "(order.SortKeys).Equal"
+		})
+		construct := "propagateSortKeyOp case dag.Merge"
+		if compared {
+			c.OK(rule, construct, ret.Pos(), "the merge key is reported only if it equals the parents' sort key")
+		} else {
+			c.Fail(rule, construct, ret.Pos(), "the merge key is reported as the output order whatever is known about the legs: after `fork … | merge k | summarize … by k` is split into per-leg partial summarizes (whose output is unordered) the combining summarize is still told its input is sorted on k and releases groups at batch boundaries — a key is emitted as several rows")
+		}
+	}
+	if n == 0 {
+		c.Undecided(rule, "propagateSortKeyOp", "no return in the Merge case found")
 	}
 }
